@@ -959,6 +959,20 @@ pub fn walk_node_for_targets(targets: &HashSet<Target>, node: Node) -> Vec<Node>
             pt::Expression::Unit(_, box_expression, _) => {
                 matches.append(&mut walk_node_for_targets(targets, box_expression.into()));
             }
+
+            pt::Expression::PreIncrement(_, box_expression) => {
+                matches.append(&mut walk_node_for_targets(targets, box_expression.into()));
+            }
+
+            pt::Expression::PreDecrement(_, box_expression) => {
+                matches.append(&mut walk_node_for_targets(targets, box_expression.into()));
+            }
+
+            pt::Expression::Power(_, box_expression, box_expression_1) => {
+                matches.append(&mut walk_node_for_targets(targets, box_expression.into()));
+
+                matches.append(&mut walk_node_for_targets(targets, box_expression_1.into()));
+            }
             _ => {
                 //Address literal
                 //Bool literal
